@@ -1242,41 +1242,36 @@ impl World {
 	}
 	/// Replay blocks to a freshly loaded node: the manager and each monitor from their own best block.
 	/// What a `Confirm` client does after a restart: whatever an object (read back from a possibly older
-	/// write) believes confirmed in a block that is not on the active chain is unconfirmed, the object is
-	/// told the highest block it shares with the active chain if its own tip is not on it, and then every
-	/// block up to the tip.
+	/// write) believes confirmed in a block that is not on the active chain is unconfirmed; if the object's
+	/// own tip is not on the active chain, the transactions of the last blocks it may have seen differently
+	/// (forks are shallower than the anti-reorg delay) are given again – what it already has in the same
+	/// block is ignored by the library – and then the tip; otherwise every block above its tip.
 	pub fn resync_node(&mut self, n: usize) {
 		use lightning::chain::Confirm;
 		let tip = self.chain.height();
+		let base = crate::chain::BASE_HEIGHT;
 		let node = &self.nodes[n];
-		let on_chain = |h: u32, hash: &bitcoin::BlockHash| h <= tip && h >= crate::chain::BASE_HEIGHT && self.chain.block_at(h).header.block_hash() == *hash;
-		let shared = |loc: &BlockLocator| -> u32 {
-			let mut h = loc.height.min(tip);
-			loop {
-				match loc.get_hash_at_height(h) {
-					Some(hash) if on_chain(h, &hash) => return h,
-					Some(_) if h > crate::chain::BASE_HEIGHT => h -= 1,
-					// (history exhausted: forks are shallower than the anti-reorg delay)
-					_ => return loc.height.min(tip).saturating_sub(6).max(crate::chain::BASE_HEIGHT),
-				}
-			}
-		};
+		let on_chain = |h: u32, hash: &bitcoin::BlockHash| h <= tip && h >= base && self.chain.block_at(h).header.block_hash() == *hash;
 		for (txid, h, bh) in Confirm::get_relevant_txids(&node.mgr) {
 			if bh.map(|b| !on_chain(h, &b)).unwrap_or(false) {
 				node.mgr.transaction_unconfirmed(&txid);
 			}
 		}
 		let loc = node.mgr.current_best_block();
-		let mut from = loc.height;
-		if !on_chain(loc.height, &loc.block_hash) {
-			from = shared(&loc);
-			let b = self.chain.block_at(from);
-			node.mgr.best_block_updated(&b.header, b.height);
-		}
-		for h in (from + 1)..=tip {
-			let b = self.chain.block_at(h);
-			let txdata: Vec<(usize, &Transaction)> = b.txs.iter().enumerate().map(|(i, t)| (i + 1, t)).collect();
-			node.mgr.transactions_confirmed(&b.header, &txdata, b.height);
+		if on_chain(loc.height, &loc.block_hash) {
+			for h in (loc.height + 1)..=tip {
+				let b = self.chain.block_at(h);
+				let txdata: Vec<(usize, &Transaction)> = b.txs.iter().enumerate().map(|(i, t)| (i + 1, t)).collect();
+				node.mgr.transactions_confirmed(&b.header, &txdata, b.height);
+				node.mgr.best_block_updated(&b.header, b.height);
+			}
+		} else {
+			for h in (loc.height.saturating_sub(5).max(base + 1))..=tip {
+				let b = self.chain.block_at(h);
+				let txdata: Vec<(usize, &Transaction)> = b.txs.iter().enumerate().map(|(i, t)| (i + 1, t)).collect();
+				node.mgr.transactions_confirmed(&b.header, &txdata, b.height);
+			}
+			let b = self.chain.tip();
 			node.mgr.best_block_updated(&b.header, b.height);
 		}
 		for cid in node.mon.list_monitors() {
@@ -1287,16 +1282,20 @@ impl World {
 					}
 				}
 				let loc = m.current_best_block();
-				let mut from = loc.height;
-				if !on_chain(loc.height, &loc.block_hash) {
-					from = shared(&loc);
-					let b = self.chain.block_at(from);
-					m.best_block_updated(&b.header, b.height, &*node.bcast, &*node.fee, &*node.logger);
-				}
-				for h in (from + 1)..=tip {
-					let b = self.chain.block_at(h);
-					let txdata: Vec<(usize, &Transaction)> = b.txs.iter().enumerate().map(|(i, t)| (i + 1, t)).collect();
-					m.transactions_confirmed(&b.header, &txdata, b.height, &*node.bcast, &*node.fee, &*node.logger);
+				if on_chain(loc.height, &loc.block_hash) {
+					for h in (loc.height + 1)..=tip {
+						let b = self.chain.block_at(h);
+						let txdata: Vec<(usize, &Transaction)> = b.txs.iter().enumerate().map(|(i, t)| (i + 1, t)).collect();
+						m.transactions_confirmed(&b.header, &txdata, b.height, &*node.bcast, &*node.fee, &*node.logger);
+						m.best_block_updated(&b.header, b.height, &*node.bcast, &*node.fee, &*node.logger);
+					}
+				} else {
+					for h in (loc.height.saturating_sub(5).max(base + 1))..=tip {
+						let b = self.chain.block_at(h);
+						let txdata: Vec<(usize, &Transaction)> = b.txs.iter().enumerate().map(|(i, t)| (i + 1, t)).collect();
+						m.transactions_confirmed(&b.header, &txdata, b.height, &*node.bcast, &*node.fee, &*node.logger);
+					}
+					let b = self.chain.tip();
 					m.best_block_updated(&b.header, b.height, &*node.bcast, &*node.fee, &*node.logger);
 				}
 			}
